@@ -1002,12 +1002,10 @@ def run_reconfig_script(ctx, ks, script, model_out=None):
                    else 'c16:policy-state-leaks-between-messages' if differs_from_new else 'c16:recipient-lost-or-duplicated')
             fail(ctx, key, case, 'message %d (recipients %r) with the rules %r in force was written to %r; a new policy with these rules writes %r' % (
                 k, m['rcpts'], [[(sp['pat'], sp['repl']) for sp in cfg[i]] for i in sorted(cfg) if ks[i] == 'forward'], [x[2] for x in got], [x[2] for x in want]))
-            return
-        if got != want:
+        elif got != want:
             key = 'c16:configuration-change-after-first-use-ignored' if changed_after_use['set'] else 'c16:policy-state-leaks-between-messages'
             fail(ctx, key, case, 'message %d was written with the headers %r; a new chain configured as this one is now writes %r' % (
                 k, [x[3] for x in got], [x[3] for x in want]))
-            return
         k += 1
     if model_out is not None:
         mo = msgs_model_obs(model_out)
@@ -1259,7 +1257,14 @@ def run(ctx):
         'recipient list again and again, different lists, A B A, other headers; a split policy followed by Forward - incl. a rule whose '
         'output still matches it - / header policies, and random chains), compared with the model (c16_msgs) and judged: every message is '
         'written as a NEW chain writes it alone (c16:policy-state-leaks-between-messages), nothing written earlier changes later, no '
-        'object shared between any two envelopes of the sequence (identity + mutation probe).  CONCURRENCY: two enqueue calls in progress '
+        'object shared between any two envelopes of the sequence (identity + mutation probe).  CONFIGURATION INTERLEAVED WITH MESSAGES: '
+        'scripts rule, msgs, rule, msgs ... on one Queue: Forward.add_mapping (string and pre-compiled patterns, flags, count, repl '
+        'function; on a policy that has not / has already handled messages, also starting with no rule; two Forwards in turn) and the '
+        'public attributes AddReceivedHeader.date_format / AddMessageIdHeader.hostname set between messages (the split policies and '
+        'AddDateHeader have no configuration); every message compared - generated header texts included, uuid masked - with a NEW chain '
+        'configured with exactly what had been configured at that moment, with re.subn over the rules added so far, and with the model '
+        '(c16_cfg: run_configured, per-message chain snapshot); keys c16:rule-added-after-first-use-ignored, '
+        'c16:configuration-change-after-first-use-ignored.  CONCURRENCY: two enqueue calls in progress '
         'at once on one Queue with a test-only yielding policy (parks at a harness gate) at the first / a middle / the last position '
         'of chains with the split policies and Forward: EVERY interleaving at the gates (<= 252 per case); three messages: up to 60 '
         'interleavings per case; three greenlets with gevent.sleep(0) policies under gevent\'s own scheduling; oracle per message: what '
